@@ -33,16 +33,17 @@ def closure(s):
 E=lambda *xs: set('SqlDt.TrEq.'+x+'_eq' for x in xs)
 # the functions named in the task statement / DESIGN.md section 7 for each property
 declared={
+ 'C14': E('IntervalYM.mul_f64','IntervalYM.div_f64','IntervalDT.mul_f64','IntervalDT.div_f64','Time.mul_f64','Time.div_f64'),
  'C01': E('date2julian','julian2date','is_leap_year','days_of_month','Date.extract','Date.day_of_week','Date.try_from_ymd'),
- 'C07': E('Timestamp.extract','Timestamp.new','Timestamp.date','Timestamp.time','Time.try_from_hms','Time.extract','Time.is_valid','Time.from_hms_unchecked'),
- 'C08': E('Date.add_days','Date.sub_days','Date.sub_date','Timestamp.add_interval_dt','Timestamp.sub_interval_dt','Timestamp.add_time','Timestamp.sub_time','Timestamp.sub_timestamp','Timestamp.sub_date','IntervalYM.add_interval_ym','IntervalYM.sub_interval_ym','IntervalDT.add_interval_dt','IntervalDT.sub_interval_dt','IntervalDT.sub_time'),
+ 'C07': E('Timestamp.extract','Timestamp.new','Timestamp.date','Timestamp.time','Time.try_from_hms','Time.extract','Time.is_valid','Time.from_hms_unchecked','Time.second','Timestamp.second'),
+ 'C08': E('Date.add_days','Date.sub_days','Date.sub_date','Timestamp.add_interval_dt','Timestamp.sub_interval_dt','Timestamp.add_time','Timestamp.sub_time','Timestamp.sub_timestamp','Timestamp.sub_date','Timestamp.add_days','Timestamp.sub_days','IntervalYM.add_interval_ym','IntervalYM.sub_interval_ym','IntervalDT.add_interval_dt','IntervalDT.sub_interval_dt','IntervalDT.sub_time'),
  'C09': E('date2julian','julian2date','Date.extract','Timestamp.extract','Timestamp.date','Timestamp.time','Date.add_interval_ym_internal','Timestamp.add_interval_ym','Date.last_day_of_month','Timestamp.last_day_of_month'),
- 'C10': E('date2julian','julian2date','Date.extract','Timestamp.extract','Timestamp.date','Timestamp.time','Timestamp.trunc_day','Timestamp.trunc_hour','Timestamp.trunc_minute','Date.day_of_week','Date.sub_days'),
+ 'C10': E('Timestamp.trunc_minute','Timestamp.trunc_hour','date2julian','julian2date','Date.extract','Timestamp.extract','Timestamp.date','Timestamp.time','Timestamp.trunc_day','Timestamp.trunc_hour','Timestamp.trunc_minute','Date.day_of_week','Date.sub_days'),
  'C11': E('date2julian','julian2date','Date.extract','Timestamp.extract','Timestamp.date','Timestamp.time','Date.day_of_week','Date.add_days','Date.sub_days'),
  'C12': E('Time.add_interval_dt','Time.sub_interval_dt','Time.sub_time','Time.from_interval_dt'),
- 'C13': E('IntervalYM.cmp','IntervalYM.extract','IntervalDT.extract','IntervalYM.negate','IntervalDT.negate','IntervalYM.try_from_ym','IntervalDT.try_from_dhms','IntervalYM.from_ym_unchecked','IntervalDT.from_dhms_unchecked'),
- 'C16': E('OracleDate.from_timestamp','OracleDate.new'),
- 'C17': E('date2julian','julian2date','Date.extract','Timestamp.extract','Timestamp.date','Timestamp.time','Date.partial_cmp_timestamp','Date.eq_timestamp','Date.and_zero_time'),
+ 'C13': E('IntervalDT.second','IntervalYM.cmp','IntervalYM.extract','IntervalDT.extract','IntervalYM.negate','IntervalDT.negate','IntervalYM.try_from_ym','IntervalDT.try_from_dhms','IntervalYM.from_ym_unchecked','IntervalDT.from_dhms_unchecked'),
+ 'C16': E('OracleDate.from_timestamp','OracleDate.new','OracleDate.add_days','OracleDate.sub_days','OracleDate.sub_date','Timestamp.oracle_add_days','Timestamp.oracle_sub_days','OracleDate.add_interval_dt'),
+ 'C17': E('date2julian','julian2date','Date.extract','Timestamp.extract','Timestamp.date','Timestamp.time','Date.partial_cmp_timestamp','Date.eq_timestamp','Date.and_zero_time','OracleDate.sub_date'),
 }
 tie={}
 for i in range(1,20):
